@@ -174,7 +174,27 @@ type walker struct {
 	witness func(at string) interface{}
 }
 
-func (w *walker) fail(sig, what string) { w.r.Violation(sig, what, w.witness(what)) }
+// poolOnly: the driver runs on behalf of C17 (real-chain part of the pool property): only the
+// pool clauses are judged, under C17 signatures; the chain-structure clauses stay C05's business.
+var poolOnly = os.Getenv("VERIF_POOL_ONLY") != ""
+
+func propID() string {
+	if poolOnly {
+		return "C17"
+	}
+	return "C05"
+}
+
+func (w *walker) fail(sig, what string) {
+	if poolOnly {
+		if !strings.HasPrefix(sig, "C05:pool:") {
+			w.r.Count("info_non_pool_clause_failed", 1)
+			return
+		}
+		sig = "C17:chain:" + strings.TrimPrefix(sig, "C05:pool:")
+	}
+	w.r.Violation(sig, what, w.witness(what))
+}
 
 // check returns the canonical chain (hashes, genesis first).
 func (w *walker) check(when string, checkPending bool, everCanonical map[string]bool) []string {
@@ -761,7 +781,7 @@ type job struct {
 
 func main() {
 	if args, ok := mon.IsChildInvocation(); ok {
-		r := mon.Start("C05")
+		r := mon.Start(propID())
 		switch args[0] {
 		case "genesis":
 			childGenesis(r)
@@ -774,7 +794,7 @@ func main() {
 		}
 		return
 	}
-	r := mon.Start("C05")
+	r := mon.Start(propID())
 	r.Level = "fault_enumeration"
 	defer mon.CleanWork()
 	wd := mon.WorkDir()
@@ -801,6 +821,9 @@ func main() {
 
 	nsc := r.Pick(48, 500)
 	crashBudget := r.Pick(90, 2200) // crash points (each = 2 processes)
+	if poolOnly {
+		nsc, crashBudget = r.Pick(14, 120), r.Pick(40, 500)
+	}
 	var scs []*Scenario
 	if replay != nil {
 		scs = []*Scenario{replay}
